@@ -657,12 +657,13 @@ func walkEqual(a, b []WalkEnt) (bool, string) {
 
 // RefPolicy: the corners the property leaves open, fixed per backend.
 type RefPolicy struct {
-	RemoveAllMissingOK bool // RemoveAll of a missing path may return nil
-	CopyOverwriteFile  bool // CopyFile/Copy of a file onto an existing file may overwrite
-	CopyMergeDir       bool // Copy/CopyDirectory onto an existing directory may merge
-	WriterNeedsParent  bool // Writer may fail when the parent directory is missing (disk)
-	RootCopySourceOK   bool // Copy/CopyDirectory with the root as source is allowed (memfs) — otherwise any result class
-	ClimbMayClamp      bool // a climbing path may be resolved inside the root instead of rejected
+	RemoveAllMissingOK bool                          // RemoveAll of a missing path may return nil
+	CopyOverwriteFile  bool                          // CopyFile/Copy of a file onto an existing file may overwrite
+	CopyMergeDir       bool                          // Copy/CopyDirectory onto an existing directory may merge
+	WriterNeedsParent  bool                          // Writer may fail when the parent directory is missing (disk)
+	RootCopySourceOK   bool                          // Copy/CopyDirectory with the root as source is allowed (memfs) — otherwise any result class
+	ClimbMayClamp      bool                          // a climbing path may be resolved inside the root instead of rejected
+	Norm               func(string) ([]string, bool) // path normalisation of this backend (nil: refNorm)
 }
 
 // Apply checks the observed outcome of op (already resolved relative to the view base `base`,
@@ -685,14 +686,21 @@ func (r *RefFS) Apply(pol RefPolicy, base []string, op FsOp, o FsOut) string {
 		}
 		return "expected an error, got " + o.Kind
 	}
-	pc, pclimb := refNorm(op.P)
+	norm := pol.Norm
+	if norm == nil {
+		norm = refNorm
+	}
+	pc, pclimb := norm(op.P)
 	var qc []string
 	qclimb := false
 	two := op.Kind == "Copy" || op.Kind == "CopyDir" || op.Kind == "CopyFile"
 	if two {
-		qc, qclimb = refNorm(op.Q)
+		qc, qclimb = norm(op.Q)
 	}
 	if pclimb || qclimb {
+		if op.Kind == "RemoveAll" && pol.RemoveAllMissingOK && o.Kind == "unit" {
+			return "" // nothing can exist there: reported as "nothing to remove"
+		}
 		if pol.ClimbMayClamp && o.Kind != "err" {
 			return "" // resolved inside the root: the caller checks confinement separately
 		}
@@ -849,6 +857,10 @@ func (r *RefFS) Apply(pol RefPolicy, base []string, op FsOp, o FsOut) string {
 		}
 		r.removeTree(p)
 	case "Copy", "CopyDir", "CopyFile":
+		if qRoot && ok && e.dir && !pRoot && pol.CopyMergeDir && o.Kind == "unit" {
+			r.copyTree(p, q) // a directory merged into the (existing) root directory
+			return ""
+		}
 		if qRoot || !ok || (op.Kind == "CopyDir" && !e.dir) || (op.Kind == "CopyFile" && e.dir) || !r.parentsOK(q) {
 			return rejected()
 		}
@@ -923,14 +935,11 @@ func (r *RefFS) copyTree(p, q []string) {
 		}
 		add = append(add, kv{key(q) + "/" + rel, refEnt{dir: v.dir, data: append([]byte{}, v.data...)}})
 	}
-	if _, ok := r.m[key(q)]; !ok {
+	if _, ok := r.m[key(q)]; !ok && len(q) > 0 {
 		r.m[key(q)] = refEnt{dir: true}
 	}
 	for _, a := range add {
-		if a.k == key(q) || strings.HasPrefix(a.k, key(q)+"/"+key(q)) && false {
-			continue
-		}
-		r.m[a.k] = a.v
+		r.m[strings.TrimPrefix(a.k, "/")] = a.v
 	}
 }
 
